@@ -29,7 +29,7 @@ ASSUMPTIONS = [
 BUDGET = {"quick": 80, "thorough": 900}
 ROUNDS = {"thorough": 3}
 FLOORS = {"evaluations_compared": {"quick": 150, "thorough": 1200}, "in_denormal_band": {"quick": 20, "thorough": 150},
-          "beyond_underflow": {"quick": 10, "thorough": 60}, "history_steps": {"quick": 60, "thorough": 400}, "nearly_constant_columns": {"quick": 15, "thorough": 100}}
+          "beyond_underflow": {"quick": 10, "thorough": 60}, "history_steps": {"quick": 60, "thorough": 400}, "nearly_constant_columns": {"quick": 15, "thorough": 100}, "batched_substitution_parameters": {"quick": 3, "thorough": 30}}
 
 LN10 = math.log(10.0)
 BAND = (math.log10(5e-324), math.log10(2.2250738585072014e-308))
@@ -55,6 +55,7 @@ def cases(tier, seed):
                 out.append({"shape": shape, "model": model, "scale": float(scales[int(rng.integers(4))]), "target": float(t),
                             "seed": int(rng.integers(2**31)), "nsites": int(rng.integers(2, 5)),
                             "history": bool(rng.random() < 0.5), "batch": bool(rng.random() < 0.3), "conserved": bool(rng.random() < 0.4), "dup": bool(rng.random() < 0.5)})
+                out[-1]["unknowns"] = len(out) % 3 == 0  # a few gaps / N / ? among the tips (missing data)
     # nearly constant columns (one taxon differs) under models with a rate-0 category: inside the large constant clade the variable
     # categories fall hundreds of orders of magnitude below the invariant one, which then dies where the odd taxon joins
     k = 0
@@ -113,8 +114,9 @@ def make(case, N):
     if case.get("conserved"):
         dev[:, 0] = False  # one fully conserved column next to the variable ones: site likelihoods hundreds of orders of magnitude apart
     seqs = {}
+    unk = drng.random((4096 * 2, S)) < (0.05 if case.get("unknowns") else 0.0)
     for i in range(N):
-        seqs[names[i]] = "".join("ACGT"[alt[i, s] if dev[i, s] else maj[s]] for s in range(S))
+        seqs[names[i]] = "".join(("-N?"[(i + s) % 3] if unk[i, s] else "ACGT"[alt[i, s] if dev[i, s] else maj[s]]) for s in range(S))
         if case.get("dup"):
             seqs[names[i]] += seqs[names[i]][-1] * 2  # the last column three times: a site pattern of weight 3
     return {"tree": "unrooted", "bl_mode": "param", "branch_lengths": bl, "newick": rt.to_newick(root, lengths=False),
@@ -239,10 +241,20 @@ def run_case(case):
         factors = (0.3, 1.5) if case["seed"] % 2 else (0.05, 1.0, 1.5)  # samples whose likelihoods are hundreds of orders of magnitude apart
         rows = torch.stack([bl0 * f for f in factors])
         dic2["tree.blens"].tensor = rows
+        # with HKY also kappa and the frequencies differ between the samples of the batch
+        sub_rows = None
+        if c["subst"]["kind"] == "HKY" and "sm.pi" in dic2 and case["seed"] % 3 != 2:
+            brng = np.random.default_rng(case["seed"] + 5)
+            sub_rows = [{"kind": "HKY", "kappa": float(c["subst"]["kappa"] * brng.uniform(0.5, 2.0)), "pi": brng.dirichlet([4.0] * 4).tolist()} for _ in factors]
+            dic2["sm.kappa"].tensor = torch.tensor([[r["kappa"]] for r in sub_rows], dtype=torch.float64)
+            dic2["sm.pi"].tensor = torch.tensor([r["pi"] for r in sub_rows], dtype=torch.float64)
+            C["batched_substitution_parameters"] = 1
         refs = []
-        for f in factors:
+        for bi, f in enumerate(factors):
             c2 = dict(c)
             c2["branch_lengths"] = (bl0 * f).tolist()
+            if sub_rows:
+                c2["subst"] = sub_rows[bi]
             refs.append(ref_eval(c2))
             C["ref_evaluations"] += 1
         val = _lib(like2, "batched log-likelihood").reshape(-1)
